@@ -210,7 +210,10 @@ def two_process(argv, tmp):
         os.makedirs(d, exist_ok=True)
         cmd = [sys.executable, '-c', 'import sys; from mininec.mininec import main; sys.exit(main(sys.argv[1:]) or 0)'] + argv + \
               ['--output-cmdline=' + os.path.join(d, 'o.cmd'), '--output-basic-input=' + os.path.join(d, 'o.mini')]
-        env = dict(os.environ, PYTHONHASHSEED=str(k + 1), PYTHONPATH=common.REPO)
+        # two runs of the same command line: another hash seed, another working directory, another user, and clocks set to
+        # time zones 26 hours apart (the two local dates always differ) — none of which is an input of the computation
+        env = dict(os.environ, PYTHONHASHSEED=str(k + 1), PYTHONPATH=common.REPO, TZ=('AAA12', 'BBB-14')[k],
+                   USER=('alice', 'bob')[k], LOGNAME=('alice', 'bob')[k], HOME=d, LC_ALL=('C', 'C.UTF-8')[k])
         p = subprocess.run(cmd, stdout=subprocess.PIPE, stderr=subprocess.PIPE, env=env, cwd=d)
         files = {}
         for fn in ('o.cmd', 'o.mini'):
@@ -269,6 +272,7 @@ def replay(rp):
 
 def run(ck):
     ck.proof_side()
+    ck.cov['further_clauses'] = 'the two processes run with clocks 26 h apart (TZ), another user, home, locale, hash seed and working directory'
     d = ck.get_driver()
     declared = {k: set(d.ask('sess writes', k).split()) for k in ('setF', 'compute', 'far', 'near')}
     geocaches = set(d.ask('sess geocaches').split())
